@@ -7,65 +7,90 @@ import Genshi.Lemmas.Heap
 namespace Genshi.Heap
 
 /-- no thread is between the two assignments of `_prepare_self` -/
-def World.Consistent (w : World) : Prop := w.prepared = false → w.streamPrepared = false
+def TState.ok (x : TState) : Bool := x.prepared || !x.streamPrepared
+
+/-- every template of the loader is either unprepared or completely prepared -/
+def World.Consistent (w : World) : Prop := w.tmpls.all TState.ok = true
 
 instance (w : World) : Decidable w.Consistent := by unfold World.Consistent; infer_instance
 
+theorem accessT_spec (ts : List TState) (t : Nat) (hc : ts.all TState.ok = true) :
+    (accessT ts t).2 = true ∧ (accessT ts t).1.all TState.ok = true ∧
+    (accessT ts t).1.map (·.root) = ts.map (·.root) := by
+  unfold accessT
+  cases hx : ts[t]? with
+  | none => exact ⟨rfl, hc, rfl⟩
+  | some x =>
+    simp only []
+    have hxok : x.ok = true := by
+      have hmem : x ∈ ts := List.mem_of_getElem? hx
+      exact (List.all_eq_true.mp hc) x hmem
+    split
+    · exact ⟨rfl, hc, rfl⟩
+    · rename_i hp
+      split
+      · rename_i hsp
+        simp [TState.ok, hp, hsp] at hxok
+      · refine ⟨rfl, ?_, ?_⟩
+        · rw [List.all_eq_true]
+          intro y hy
+          rcases List.mem_or_eq_of_mem_set hy with h | h
+          · exact (List.all_eq_true.mp hc) y h
+          · subst h; simp [TState.ok]
+        · apply List.ext_getElem?
+          intro i
+          simp only [List.getElem?_map]
+          by_cases hit : i = t
+          · subst hit
+            by_cases hlt : i < ts.length
+            · rw [List.getElem?_set_self hlt]; simp [hx]
+            · have : ts.length ≤ i := Nat.le_of_not_lt hlt
+              rw [List.getElem?_eq_none this] at hx; cases hx
+          · rw [List.getElem?_set_ne (Ne.symm hit)]
+
+theorem markPrepared_spec : ∀ (touched : List Nat) (ts : List TState), ts.all TState.ok = true →
+    (markPrepared ts touched).all TState.ok = true ∧
+    (markPrepared ts touched).map (·.root) = ts.map (·.root) := by
+  intro touched
+  induction touched with
+  | nil => intro ts hc; exact ⟨hc, rfl⟩
+  | cons t rest ih =>
+    intro ts hc
+    obtain ⟨_, h2, h3⟩ := accessT_spec ts t hc
+    obtain ⟨i1, i2⟩ := ih _ h2
+    exact ⟨i1, i2.trans h3⟩
+
 theorem access_ok (w : World) (hc : w.Consistent) : w.access.2 = true := by
   unfold World.access
-  split
-  · rfl
-  · split
-    · rename_i h1 h2; simp [World.Consistent] at hc; simp_all
-    · rfl
+  exact (accessT_spec w.tmpls 0 hc).1
 
-theorem access_view (w : World) (hc : w.Consistent) :
-    w.access.1.view = w.view ∧ w.access.1.translator = w.translator ∧ w.access.1.image = w.image ∧
-    w.access.1.renders = w.renders ∧ w.access.1.prepared = true ∧ w.access.1.Consistent := by
-  unfold World.access
-  split
-  · rename_i h; simp [h, World.Consistent]
-  · split
-    · rename_i h1 h2; simp [World.Consistent] at hc; simp_all
-    · rename_i h1 h2; simp [World.view, h1, World.Consistent]
-
-theorem access_prepared (w : World) (hp : w.prepared = true) : w.access = (w, true) := by
-  simp [World.access, hp]
-
-
-/-- `w'` is the same template value as `w`: what any render reads, and the flags, agree -/
+/-- `w'` is the same template value as `w`: every list a render reads, the filters, and the loader's
+    templates agree; only `_stream`/`_prepared` flags may have gone from unprepared to prepared -/
 structure SameTmpl (w w' : World) : Prop where
-  view : w'.view = w.view
+  heap : w'.heap = w.heap
   translator : w'.translator = w.translator
-  image : w'.image = w.image
+  roots : w'.roots = w.roots
   cons : w'.Consistent
-  stay : w.prepared = true → w'.prepared = true ∧ w'.heap = w.heap ∧ w'.streamPrepared = w.streamPrepared
 
-theorem SameTmpl.refl (w : World) (hc : w.Consistent) : SameTmpl w w :=
-  ⟨rfl, rfl, rfl, hc, fun h => ⟨h, rfl, rfl⟩⟩
+theorem SameTmpl.refl (w : World) (hc : w.Consistent) : SameTmpl w w := ⟨rfl, rfl, rfl, hc⟩
 
 theorem SameTmpl.trans {a b c : World} (h1 : SameTmpl a b) (h2 : SameTmpl b c) : SameTmpl a c :=
-  ⟨h2.view.trans h1.view, h2.translator.trans h1.translator, h2.image.trans h1.image, h2.cons,
-   fun h => by
-     obtain ⟨p1, q1, r1⟩ := h1.stay h
-     obtain ⟨p2, q2, r2⟩ := h2.stay p1
-     exact ⟨p2, q2.trans q1, r2.trans r1⟩⟩
+  ⟨h2.heap.trans h1.heap, h2.translator.trans h1.translator, h2.roots.trans h1.roots, h2.cons⟩
 
 theorem sameTmpl_access (w : World) (hc : w.Consistent) : SameTmpl w w.access.1 := by
-  obtain ⟨h1, h2, h3, _, h5, h6⟩ := access_view w hc
-  refine ⟨h1, h2, h3, h6, ?_⟩
-  intro hp
-  rw [access_prepared w hp]
-  exact ⟨hp, rfl, rfl⟩
+  obtain ⟨_, h2, h3⟩ := accessT_spec w.tmpls 0 hc
+  unfold World.access
+  exact ⟨rfl, rfl, h3, h2⟩
+
+theorem access_renders (w : World) : w.access.1.renders = w.renders := rfl
 
 /-- changing only the renders / the loader count does not touch the template value -/
 theorem sameTmpl_of_fields (w w' : World) (hc : w.Consistent)
-    (h1 : w'.heap = w.heap) (h2 : w'.image = w.image) (h3 : w'.streamPrepared = w.streamPrepared)
-    (h4 : w'.prepared = w.prepared) (h5 : w'.translator = w.translator) : SameTmpl w w' := by
-  refine ⟨?_, h5, h2, ?_, ?_⟩
-  · simp [World.view, h1, h2, h4]
-  · intro h; rw [h3]; apply hc; rw [← h4]; exact h
-  · intro h; exact ⟨by rw [h4]; exact h, h1, h3⟩
+    (h1 : w'.heap = w.heap) (h2 : w'.tmpls = w.tmpls) (h5 : w'.translator = w.translator) :
+    SameTmpl w w' := by
+  refine ⟨h1, h5, ?_, ?_⟩
+  · simp [World.roots, h2]
+  · simp only [World.Consistent, h2]; exact hc
 
 theorem exec_sameTmpl (v : Variant) (hv1 : v.callCopies = true) (hv2 : v.extractCopies = true)
     (fuel : Nat) (w : World) (hc : w.Consistent) (a : Act) : SameTmpl w (exec v fuel w a).1 := by
@@ -82,17 +107,15 @@ theorem exec_sameTmpl (v : Variant) (hv1 : v.callCopies = true) (hv2 : v.extract
     simp only at ha hs ⊢
     subst ha
     simp only [if_true]
-    exact hs.trans (sameTmpl_of_fields w1 _ hs.cons rfl rfl rfl rfl rfl)
+    exact hs.trans (sameTmpl_of_fields w1 _ hs.cons rfl rfl rfl)
   | step i =>
     simp only [exec]
     split
     · exact SameTmpl.refl w hc
     · rename_i r _
-      have hh := stepR_heap v hv1 fuel w.heap r
-      generalize hs : stepR v fuel w.heap r = q at *
-      obtain ⟨h1, r1, o⟩ := q
-      simp only at hh ⊢
-      exact sameTmpl_of_fields w _ hc hh rfl rfl rfl rfl
+      have hh := stepR_heap v hv1 w.translator w.roots fuel w.heap r
+      obtain ⟨m1, m2⟩ := markPrepared_spec (stepR v w.translator w.roots fuel w.heap r).touched w.tmpls hc
+      exact ⟨hh, rfl, m2, m1⟩
   | extract =>
     simp only [exec]
     have hs := sameTmpl_access w hc
@@ -105,22 +128,15 @@ theorem exec_sameTmpl (v : Variant) (hv1 : v.callCopies = true) (hv2 : v.extract
     split
     · exact hs
     · rename_i root _
-      exact hs.trans (sameTmpl_of_fields w1 _ hs.cons (extractEvs_heap v hv2 fuel w1.heap root) rfl rfl rfl rfl)
+      exact hs.trans (sameTmpl_of_fields w1 _ hs.cons (extractEvs_heap v hv2 fuel w1.heap root) rfl rfl)
   | pickle => simp only [exec]; exact SameTmpl.refl w hc
-  | register => simp only [exec]; exact sameTmpl_of_fields w _ hc rfl rfl rfl rfl rfl
-
-
-theorem access_renders (w : World) : w.access.1.renders = w.renders := by
-  unfold World.access
-  split
-  · rfl
-  · split <;> rfl
+  | register => simp only [exec]; exact sameTmpl_of_fields w _ hc rfl rfl rfl
 
 /-- an action other than `step j` leaves render `j` as it is (opening appends at the end) -/
 theorem exec_renders_other (v : Variant) (fuel : Nat) (w : World) (a : Act) (j : Nat) (r : Render)
     (ha : a ≠ .step j) (hr : w.renders[j]? = some r) : (exec v fuel w a).1.renders[j]? = some r := by
   cases a with
-  | access => simp only [exec]; rw [access_renders]; exact hr
+  | access => simp only [exec]; exact hr
   | «open» d =>
     simp only [exec]
     have h := access_renders w
@@ -169,26 +185,24 @@ theorem outputsOf_exec_other (v : Variant) (fuel : Nat) (w : World) (a : Act) (i
   | pickle => rfl
   | register => rfl
 
-
 theorem run_cons (v : Variant) (fuel : Nat) (w : World) (a : Act) (as : List Act) :
     run v fuel w (a :: as) =
       ((run v fuel (exec v fuel w a).1 as).1, (exec v fuel w a).2 :: (run v fuel (exec v fuel w a).1 as).2) := by
   simp [run]
 
-/-- the schedule induction: in a prepared world the outputs a schedule produces for render `i`
-    are the outputs of stepping that render alone, whatever else the schedule does -/
+/-- the schedule induction: the outputs a schedule produces for render `i` are the outputs of
+    stepping that render alone, whatever else the schedule does -/
 theorem run_outputs (v : Variant) (hv1 : v.callCopies = true) (hv2 : v.extractCopies = true) (fuel : Nat) :
     ∀ (s : List Act) (w : World) (i : Nat) (r : Render),
-      w.Consistent → w.prepared = true → w.renders[i]? = some r →
-      outputsOf i (run v fuel w s).2 = soloSteps v fuel w.heap (countSteps i s) r := by
+      w.Consistent → w.renders[i]? = some r →
+      outputsOf i (run v fuel w s).2 = soloSteps v w.translator w.roots fuel w.heap (countSteps i s) r := by
   intro s
   induction s with
-  | nil => intro w i r _ _ _; simp [run, outputsOf, countSteps, soloSteps]
+  | nil => intro w i r _ _; simp [run, outputsOf, countSteps, soloSteps]
   | cons a as ih =>
-    intro w i r hc hp hr
+    intro w i r hc hr
     rw [run_cons]
     have hsame := exec_sameTmpl v hv1 hv2 fuel w hc a
-    obtain ⟨hp1, hh1, _⟩ := hsame.stay hp
     by_cases hstep : a = .step i
     · subst hstep
       -- the step of render i itself
@@ -197,23 +211,25 @@ theorem run_outputs (v : Variant) (hv1 : v.callCopies = true) (hv2 : v.extractCo
         · exact h'
         · rw [List.getElem?_eq_none h'] at hr; cases hr
       have hex : exec v fuel w (.step i) =
-          ({ w with heap := (stepR v fuel w.heap r).1, renders := w.renders.set i (stepR v fuel w.heap r).2.1 },
-           .out i (stepR v fuel w.heap r).2.2) := by
+          ({ w with heap := (stepR v w.translator w.roots fuel w.heap r).h,
+                    renders := w.renders.set i (stepR v w.translator w.roots fuel w.heap r).r,
+                    tmpls := markPrepared w.tmpls (stepR v w.translator w.roots fuel w.heap r).touched },
+           .out i (stepR v w.translator w.roots fuel w.heap r).out) := by
         simp only [exec, hr]
-      have hr1 : (exec v fuel w (.step i)).1.renders[i]? = some (stepR v fuel w.heap r).2.1 := by
+      have hr1 : (exec v fuel w (.step i)).1.renders[i]? = some (stepR v w.translator w.roots fuel w.heap r).r := by
         rw [hex]; simp only []; rw [List.getElem?_set_self hlt]
-      have ih' := ih (exec v fuel w (.step i)).1 i _ hsame.cons hp1 hr1
+      have ih' := ih (exec v fuel w (.step i)).1 i _ hsame.cons hr1
+      rw [hsame.heap, hsame.translator, hsame.roots] at ih'
       simp only [countSteps, if_true]
       rw [Nat.add_comm]
       simp only [soloSteps]
-      rw [hh1] at ih'
       rw [← ih']
       rw [hex]
       simp [outputsOf]
     · -- any other action
       have hr1 := exec_renders_other v fuel w a i r hstep hr
-      have ih' := ih (exec v fuel w a).1 i r hsame.cons hp1 hr1
-      rw [hh1] at ih'
+      have ih' := ih (exec v fuel w a).1 i r hsame.cons hr1
+      rw [hsame.heap, hsame.translator, hsame.roots] at ih'
       cases a with
       | step j =>
         have hji : j ≠ i := fun h => hstep (by rw [h])
